@@ -775,3 +775,21 @@ Proof.
   destruct (run st (step selfsd_fixed_cfg) init selfsd_fixed_trace) as [s|] eqn:Er; [|vm_compute in Er; discriminate].
   exists s. split; [reflexivity|]. vm_compute in Er. inversion Er; subst. simpl. repeat split.
 Qed.
+
+(* ---- the queries and iwstw_schedule_empty_only ---- *)
+Theorem queue_size_exact : forall c s t s', R c s -> step c s t EUnlock = Some s' -> t <> W -> cp (cl s t) = Locked ->
+  fn (cl s t) = 4 -> cp (cl s' t) = Ret (length (queue s)) false /\ queue s' = queue s.
+Proof.
+  intros c s t s' H Hs Ht Hp Hf. assert (V := Inv_R c s H). assert (IC := i_cnt _ _ V). unfold Icnt in IC.
+  scases Hs t; try congruence; simpl; unfold upd; rewrite Nat.eqb_refl; simpl.
+  rewrite E0 in IC. destruct (Nat.eqb_spec t W); [contradiction|]. rewrite E in IC. rewrite IC. auto.
+Qed.
+
+Theorem empty_only_step : forall c s t e s', step c s t e = Some s' -> t <> W -> cp (cl s t) = Locked -> fn (cl s t) = 2 ->
+  shut s = false ->
+  (queue s = [] -> e = EEnq (tk (cl s t)) /\ queue s' = [tk (cl s t)] /\ enq s' = enq s ++ [tk (cl s t)] /\ cp (cl s' t) = Enq) /\
+  (queue s <> [] -> e = EUnlock /\ queue s' = queue s /\ enq s' = enq s /\ cp (cl s' t) = Ret RC_OK false).
+Proof.
+  intros c s t e s' H Ht Hp Hf Hs.
+  scases H t; try congruence; simpl; unfold upd; rewrite Nat.eqb_refl; simpl; split; intros Q; try congruence; repeat split; auto.
+Qed.
